@@ -233,6 +233,34 @@ pub fn run_obs(op: &str, step: &Value, regs: &Regs, ctx: &mut Ctx, keys: &crate:
                     (Err(_), Ok(_)) => return Err("#variant:typed_lookup# try_optional_object_for_predicate ignored an ambiguous predicate".into()),
                     _ => {}
                 }
+                // the CBOR-typed optional form must agree too
+                match (e.optional_object_for_predicate(mk()), e.extract_optional_object_for_predicate::<String>(mk())) {
+                    (Ok(None), Ok(Some(_))) | (Ok(None), Err(_)) => return Err("#variant:typed_lookup# extract_optional_object_for_predicate disagrees on an absent predicate".into()),
+                    (Ok(Some(o)), Ok(Some(x))) => {
+                        let c: dcbor::CBOR = x.into();
+                        if o.subject().as_leaf().map(|l| l.to_cbor_data()) != Some(c.to_cbor_data()) {
+                            return Err("#variant:typed_lookup# extract_optional_object_for_predicate::<String> returned another value".into());
+                        }
+                    }
+                    (Ok(Some(_)), Ok(None)) => return Err("#variant:typed_lookup# extract_optional_object_for_predicate lost a present object".into()),
+                    (Err(_), Ok(_)) => return Err("#variant:typed_lookup# extract_optional_object_for_predicate ignored an ambiguous predicate".into()),
+                    _ => {}
+                }
+                // extract_object / extract_predicate of each assertion: the stored leaf or an error, never another value
+                for asn in e.assertions() {
+                    for (part, got) in [(asn.try_object(), asn.extract_object::<String>()), (asn.try_predicate(), asn.extract_predicate::<String>())] {
+                        match (part, got) {
+                            (Err(_), Ok(_)) => return Err("#variant:typed_lookup# extract_object/extract_predicate answered on an element without that part".into()),
+                            (Ok(o), Ok(x)) => {
+                                let c: dcbor::CBOR = x.into();
+                                if o.subject().as_leaf().map(|l| l.to_cbor_data()) != Some(c.to_cbor_data()) {
+                                    return Err("#variant:typed_lookup# extract_object/extract_predicate::<String> returned another value".into());
+                                }
+                            }
+                            _ => {}
+                        }
+                    }
+                }
                 // extraction of the object(s): a value whose re-encoding is the stored leaf, or an error
                 if let Ok(o) = &one {
                     if let Some(c) = o.subject().as_leaf() {
@@ -348,6 +376,31 @@ pub fn run_obs(op: &str, step: &Value, regs: &Regs, ctx: &mut Ctx, keys: &crate:
                 let a1 = e.has_signature_from(*p);
                 let a2 = e.verify_signature_from(*p);
                 // the verify_ form must agree with the has_ form
+                // the per-signature forms (is_verified_signature / verify_signature) must agree with each other and with the has_ form
+                let objs = e.objects_for_predicate(known_values::SIGNED);
+                let mut all_bare = true;
+                let mut any_valid = false;
+                let mut forms_disagree = false;
+                for o in &objs {
+                    match o.extract_subject::<bc_components::Signature>() {
+                        Ok(sig) if !o.is_node() => {
+                            let b = e.is_verified_signature(&sig, *p);
+                            if b != e.verify_signature(&sig, *p).is_ok() { forms_disagree = true; }
+                            if let Ok(r) = e.verify_signature(&sig, *p) { if r.digest() != e.digest() { forms_disagree = true; } }
+                            any_valid |= b;
+                        }
+                        _ => all_bare = false,
+                    }
+                }
+                if forms_disagree {
+                    return json!(["err", "is_verified_signature and verify_signature disagree"]);
+                }
+                if any_valid && matches!(a1, Ok(false)) {
+                    return json!(["err", "is_verified_signature accepts a signature that has_signature_from does not see"]);
+                }
+                if !any_valid && all_bare && matches!(a1, Ok(true)) {
+                    return json!(["err", "has_signature_from accepts although is_verified_signature rejects every signature"]);
+                }
                 match (&a1, &a2) {
                     (Ok(true), Err(_)) | (Ok(false), Ok(_)) => json!(["err", "has_signature_from and verify_signature_from disagree"]),
                     _ => rb(a1),
